@@ -123,9 +123,12 @@ def claim_no_cdr_recursion(cx, res, kf):
         res.absorb(eng)
 
         def onm(m, op=op):
-            done = RP.stack_op(op, 300000)
-            res.replays += 1
-            return {"replayed": done is False, "observed": "completed=%r" % done, "witness": {"kind": "stack", "op": op, "n": 300000}}
+            for o in ((op, "eq_self") if op == "eq" else (op,)):
+                done = RP.stack_op(o, 300000)
+                res.replays += 1
+                if done is False:
+                    return {"replayed": True, "observed": "%s on 300000 elements did not complete" % o, "witness": {"kind": "stack", "op": o, "n": 300000}}
+            return {"replayed": False, "observed": "completed"}
         n_ops = 0
         for t in terms:
             pc = list(t.state.pc)
@@ -260,6 +263,115 @@ def claim_drop_unlinks(cx, res, kf):
         res.vacuity.append(("Cons::drop reaches %s" % k, n > 0))
 
 
+def claim_spaninfo_drop(cx, res, kf):
+    """<SpanInfo as Drop>::drop: whenever the node is a Cons node its cdr slot is taken out (replaced by a leaf) before the
+    node goes to the recursive drop glue, whatever its span is, and the loop does the same for every further Cons node."""
+    SI = cx.enums["SpanInfo"]
+    CONS = SI.index("Cons")
+    fn = None
+    for name, f in cx.fns.items():
+        if "lexpr/src/datum.rs" in name and name.endswith("::drop") and "SpanInfo" in f.local_ty.get(f.args[0], ""):
+            fn = f
+    if fn is None:
+        res.error = "<SpanInfo as Drop>::drop not found in the MIR dump"
+        return
+    eng = C.make_engine(cx, [], loop_mode="cut", timeout_s=120, max_paths=5000)
+    info = {}
+
+    def mk_node(label, depth):
+        d = z3.BitVec("%s_kind" % label, 64)
+        eng.solver.add(z3.ULT(d, bv(len(SI))))
+        info.setdefault("cons", []).append(z3.ULT(d, bv(len(SI))))
+        if depth > 0:
+            arr = Agg("array", "[SpanInfo; 2]", [Blob(label + "_carmeta"), mk_node(label + "_cdr", depth - 1)])
+        else:
+            arr = Agg("array", "[SpanInfo; 2]", [Blob(label + "_carmeta"), Opaque("SpanInfo", label + "_rest", {})])
+        info.setdefault("heap", {})["arr_" + label] = arr
+        box = Agg("struct", "Box", [Agg("struct", "Unique", [Ref(("H", "arr_" + label))]), UnitV()])
+        span = Agg("struct", "Span", [Blob(label + "_s"), Blob(label + "_e")])
+        n = EnumV("SpanInfo", d, {SI.index("Prim"): [span], CONS: [span, box], SI.index("Vec"): [span, Blob(label + "_elems")]})
+        info.setdefault("nodes", {})[label] = (n, arr)
+        return n
+
+    def h_replace(engine, st, fr, callee, argv, m):
+        dest = argv[0]
+        cur = engine.load(st, dest.addr)
+        # which array does the slot belong to?
+        owner = None
+        if len(dest.addr) >= 2 and dest.addr[0] == "H" and str(dest.addr[1]).startswith("arr_"):
+            owner = dest.addr[1][4:]
+        st.events.append(("replace", owner, dest.addr[2:] if len(dest.addr) > 2 else ()))
+        engine.store(st, dest.addr, argv[1])
+        return cur
+
+    def h_blobfn(engine, st, fr, callee, argv, m):
+        return Blob("span")
+    eng.stubs = [(re.compile(r"^std::mem::replace::<SpanInfo>$"), h_replace), (re.compile(r"^(?:datum::)?Span::empty$"), h_blobfn)] + S.COMBINATOR_STUBS + S.CORE_STUBS
+    next_l = fn.local_by_debug("next")
+
+    def init(e, st, fr):
+        node = mk_node("self", 1)
+        st.heap.update(info["heap"])
+        st.heap["self"] = node
+        fr.locals[fn.args[0]] = Ref(("H", "self"))
+        st.notes["in"] = ()
+        return list(info.get("cons", []))
+
+    def havoc(e, st, fr, bb):
+        arrive = fr.locals.get(next_l)
+        nxt = mk_node("next%d" % len(st.notes["in"]), 0)
+        st.heap.update(info["heap"])
+        fr.locals[next_l] = nxt
+        st.notes["in"] = st.notes["in"] + ((bb, {"next": nxt, "label": "next%d" % len(st.notes["in"]), "nev": len(st.events), "arrive": arrive}),)
+        return []
+    eng.havoc_hook = havoc
+    terms = eng.explore(fn.name, init)
+    res.absorb(eng)
+
+    def onm(m=None):
+        for op in ("datum_parse_err", "datum_drop"):
+            done = RP.stack_op(op, 300000)
+            res.replays += 1
+            if done is False:
+                return {"replayed": True, "observed": "%s on a 300000-element list did not complete on a 2 MiB stack" % op,
+                        "witness": {"kind": "stack", "op": op, "n": 300000}}
+        return {"replayed": False}
+    selfn = info["nodes"]["self"][0]
+    seen = {"leaf": 0, "first": 0, "step": 0, "end": 0}
+    for t in terms:
+        st = t.state
+        pc = list(st.pc)
+        if t.kind == "PANIC":
+            res.must_be_unsat(pc, "SpanInfo::drop: reachable panic", onm)
+            continue
+        reps = [e for e in st.events if e[0] == "replace"]
+        if not st.notes["in"]:
+            if t.kind == "RETURN":
+                seen["leaf"] += 1
+                res.must_be_unsat(pc + [selfn.discr == CONS], "SpanInfo::drop leaves the cdr chain of a list node to the recursive drop glue "
+                                  "(one stack frame per element, e.g. for the span information a failed parse throws away)", onm)
+            continue
+        first = [e for e in st.events[:st.notes["in"][0][1]["nev"]] if e[0] == "replace"]
+        if not (len(first) == 1 and first[0][1] == "self" and first[0][2] and first[0][2][-1] == ("c", 1) or (len(first) == 1 and first[0][1] == "self")):
+            res.must_be_unsat(pc, "SpanInfo::drop enters its loop without taking the node's own cdr slot", onm)
+            continue
+        seen["first"] += 1
+        hb, rec = st.notes["in"][-1]
+        nxt = rec["next"]
+        body = [e for e in st.events[rec["nev"]:] if e[0] == "replace"]
+        if t.kind == "LOOP_BACK":
+            seen["step"] += 1
+            ok = len(body) == 1 and body[0][1] == rec["label"]
+            res.must_be_unsat(pc + [nxt.discr != CONS], "SpanInfo::drop: loop continues on a node that is not a list node", onm)
+            if not ok:
+                res.must_be_unsat(pc, "SpanInfo::drop: a pass of the loop does not take the next node's cdr slot", onm)
+        elif t.kind == "RETURN":
+            seen["end"] += 1
+            res.must_be_unsat(pc + [nxt.discr == CONS], "SpanInfo::drop stops at a list node whose cdr chain is still attached", onm)
+    for k, n in seen.items():
+        res.vacuity.append(("SpanInfo::drop reaches %s" % k, n > 0))
+
+
 def claim_ignored_any(cx0, res, kf):
     """Skipping an unknown field (serde's IgnoredAny) must not walk the skipped value: deserialize_ignored_any only tells
     the visitor `unit`; forwarding to deserialize_any would present a list as nested (car, cdr) pairs, one stack frame per
@@ -319,6 +431,11 @@ CLAIMS = [
           "further cells follow, whatever ends the chain (proper or dotted); otherwise it empties the cell and every pass of its "
           "loop takes the next cell off the chain",
           "arbitrary kinds of the first two cdrs; any chain length (loop cut)", configs=("fast",)),
+    Claim("c16_spaninfo_drop", "C16", "quick", claim_spaninfo_drop,
+          "the hand-written Drop of span information takes the cdr slot out of every list node (the dropped node itself, whatever "
+          "its span, and each further one in its loop) before the node reaches the recursive drop glue, and stops only at a "
+          "non-list node",
+          "arbitrary node kinds; any chain length (loop cut)", configs=("fast",)),
     Claim("c16_ignored_any_shallow", "C16", "quick", claim_ignored_any,
           "deserialize_ignored_any (unknown struct fields) answers with visit_unit and never forwards to a walking method",
           "arbitrary value", configs=("fast",), crate="serde-lexpr"),
